@@ -64,7 +64,9 @@ func (s *Store) GetBalance(ctx context.Context, address, asset string) (*big.Int
 			}
 		}
 	}
-	s.S.note(ctx, "store.balance", "account", address, "asset", asset, "value", b.String())
+	if s.S != nil {
+		s.S.note(ctx, "store.balance", "account", address, "asset", asset, "value", b.String())
+	}
 	return b, nil
 }
 
@@ -153,11 +155,13 @@ func (s *Store) GetTransaction(ctx context.Context, txID *big.Int) (*ledger.Tran
 
 // InsertLogs is called by the batch worker: it parks until the scheduler decides the outcome.
 func (s *Store) InsertLogs(ctx context.Context, logs ...*ledger.ChainedLog) error {
-	switch s.S.workerArrive(s.Gen, logs) {
-	case 0:
-		return errInjected
-	case 2:
-		return fmt.Errorf("inserting logs: %w", context.Canceled)
+	if s.S != nil { // under the scheduler: park until it decides the outcome
+		switch s.S.workerArrive(s.Gen, logs) {
+		case 0:
+			return errInjected
+		case 2:
+			return fmt.Errorf("inserting logs: %w", context.Canceled)
+		}
 	}
 	s.D.mu.Lock()
 	s.D.Logs = append(s.D.Logs, logs...)
